@@ -836,9 +836,14 @@ class Machine:
         m = ("integral_match", {"target": target, "reference": "rectangle"})
         other = copy.deepcopy(self.wv)
         # A: maps first, then pipeline (on the primary, with the step oracles)
+        def conditioning(xs):
+            xs = np.asarray(xs, dtype=float)
+            return float(np.finfo(float).eps * np.max(np.abs(xs)) / np.min(np.diff(xs))) if len(xs) > 1 else 0.0
+
         for o in ops:
             self.apply(*o)
         self.apply(*g)
+        cond = conditioning(self.cur()[0])          # where the pipeline of order A was computed
         self.apply(*m)
         # B: pipeline first, then maps
         self.history.append("|| other order:")
@@ -846,6 +851,7 @@ class Machine:
             with warnings.catch_warnings():
                 warnings.simplefilter("ignore")
                 self.build_call(*g, primary=False)(other)
+                cond = max(cond, conditioning(other.get()[0]))      # ... and of order B (before the maps move it)
                 self.build_call(*m, primary=False)(other)
                 for o in ops:
                     self.build_call(*o, primary=False)(other)
@@ -853,7 +859,7 @@ class Machine:
             self.fail("pipeline-raised", f"op=recreate_from_average:{s}", f"recreate+match then maps raised {type(e).__name__}: {e}")
         ax, ay = self.cur()
         bx, by = (np.asarray(v, dtype=float) for v in other.get())
-        cond = max(float(np.finfo(float).eps * np.max(np.abs(v)) / np.min(np.diff(v))) for v in (ax, bx) if len(v) > 1)
+        cond = max([cond] + [conditioning(v) for v in (ax, bx)])
         if not (close(ax, bx, 1e-7) and close(ay, by, 1e-7 + 64 * cond)):
             bad = int(np.argmax(np.abs(ay - by))) if ay.shape == by.shape else -1
             self.fail("R5/maps-do-not-commute-with-pipeline", f"op=recreate_from_average:{s}",
